@@ -19,8 +19,10 @@ def replay_scripts(tag, behaviours, timeout=1800, per_chunk_timeout=None):
     guard = 0
     while pending:
         guard += 1
-        if guard > 50:
-            raise vlib.ToolError("replayer keeps dying: %d crashes" % guard)
+        if guard > 20:
+            # twenty crashes/hangs of the code under test are reported; the rest is not replayed
+            total["not_replayed"] = len(pending)
+            break
         vlib.write_ndjson(inp, pending)
         if os.path.exists(prog):
             os.remove(prog)
